@@ -1,12 +1,129 @@
 import Driver.Util
-/-! Driver section for C08 (stub until the model is online). -/
-namespace Driver.C08
-open Rxn Driver
+import Driver.C07
+import RxnModel.Model.Ckpt
+/-!
+Driver section for C08: trace validation of a real `dkv.DB` through checkpoints, crashes and restores.
+Input lines are `op ## impl-output`. The C07 operations (put/del/get/scan/bg f/bg c) are replayed on
+`Rxn.Ckpt.step` (the same definitions the theorems of `Props/C08.lean` are about); in addition
 
-def step (st : Unit) : List String → Unit × String
+* `ckpt id`            `DB.Checkpoint(id)` up to the return of the call (capture under the lock)
+* `cw id` / `cd id`    the two asynchronous halves (WAL save, document save + handle returned)
+* `retain i,j`         `UpdateRetainedCheckpoints`
+* `reopen id mode`     abandon the instance (crash) and `dkv.Open` from the handle of checkpoint `id`
+* `peek id`            open a throw-away read-only instance from the handle and scan it completely
+* `intact`             theorem instance evaluated on the implementation (files of retained checkpoints unchanged)
+
+Every read prints the model's answer and, when it differs, the specification's (`#spec`): the map at the
+`Checkpoint` call for restores, the map of all writes for ordinary reads.
+-/
+namespace Driver.C08
+open Rxn Driver Rxn.Lsm Driver.C07
+
+structure St where
+  s : Ckpt.State := {}
+  spec : Spec := []
+  /-- the specification map at each `Checkpoint` call -/
+  specAt : List (Nat × Spec) := []
+  bad : Bool := false
+  flushQ : Nat := 0
+  compactQ : Nat := 0
+
+def specOf (st : St) (id : Nat) : Spec := ((st.specAt.find? (·.1 == id)).map (·.2)).getD []
+
+def retainedDone (st : St) (id : Nat) : Bool :=
+  st.s.done.contains id && st.s.ckpts.any (·.id == id)
+
+def stepM (st : St) (a : Ckpt.Act) : Option St :=
+  match Ckpt.step st.s a with
+  | some s' => some { st with s := s' }
+  | none => none
+
+def writeOp (st : St) (del : Bool) (k v : Bytes) (hint : List String) : St × String :=
+  if st.flushQ ≥ 3 then (st, "queue-full") else
+  let rot := hint == ["rot=1"]
+  match stepM st (.write del k v rot) with
+  | some st' =>
+    let a : Lsm.Act := if del then .del k else .put k v
+    ({ st' with spec := specStep st.spec st.s.db.seq a, flushQ := st'.flushQ + (if rot then 1 else 0) },
+     if rot then "rot=1" else "rot=0")
+  | none => ({ st with bad := true }, "disabled")
+
+def parseRots (ws : List String) : List Nat :=
+  match ws.find? (·.startsWith "rots=") with
+  | some w => parseIds (w.drop 5).toString
+  | none => []
+
+def showIds (l : List Nat) : String := if l.isEmpty then "-" else joinWith "," (l.map toString)
+
+def step (st : St) (ws : List String) : St × String :=
+  let (op, hint) := splitHint ws
+  match op with
+  | ["put", k, v] => writeOp st false (hexOr k) (hexOr v) hint
+  | ["del", k] => writeOp st true (hexOr k) [] hint
+  | ["get", k] =>
+    (st, withSpec (showAnswer (answer (get st.s.db (hexOr k)))) (showAnswer (answer (Spec.get st.spec (hexOr k)))))
+  | ["scan", p] =>
+    (st, withSpec (showScan (scan st.s.db (hexOr p))) (showScan (specScan st.spec (hexOr p))))
+  | ["bg", _] =>
+    match hint with
+    | ["none"] => (st, "none")
+    | ["compactbegin"] => (st, "compactbegin")
+    | ["compactidle"] => ({ st with compactQ := st.compactQ - 1 }, "compactidle")
+    | ["queue-full"] => (st, if st.compactQ ≥ 4 then "queue-full" else "not-full")
+    | ["flushbegin", n] =>
+      match stepM st (.flushBegin (natOr n)) with
+      | some st' => (st', "flushbegin " ++ toString ((st'.s.db.flushing.getD []).length))
+      | none => ({ st with bad := true }, "disabled " ++ n)
+    | ["flushcommit", n] =>
+      let cnt := (st.s.db.flushing.getD []).length
+      match stepM st .flushCommit with
+      | some st' => ({ st' with flushQ := st'.flushQ - 1, compactQ := st'.compactQ + 1 }, "flushcommit " ++ toString cnt)
+      | none => ({ st with bad := true }, "disabled " ++ n)
+    | ["compact", lvl, rm, add] =>
+      let l := natOr (lvl.drop 1).toString
+      let rmIds := parseIds (rm.drop 3).toString
+      let addStr := (add.drop 4).toString
+      let runs := if addStr == "none" then [] else (addStr.splitOn "|").map parseRun
+      match stepM st (.compact rmIds l runs) with
+      | some st' => (st', joinWith " " hint)
+      | none => ({ st with bad := true }, "unsafe")
+    | _ => (st, "bad-hint")
+  | ["ckpt", id] =>
+    match stepM st (.checkpoint (natOr id)) with
+    | some st' => ({ st' with specAt := (natOr id, st.spec) :: st.specAt }, "captured")
+    | none => (st, "disabled")
+  | ["cw", id] =>
+    match stepM st (.saveWal (natOr id)) with
+    | some st' => (st', "ok")
+    | none => (st, "none")
+  | ["cd", id] =>
+    match stepM st (.saveDoc (natOr id)) with
+    | some st' => (st', "ok")
+    | none => (st, "none")
+  | ["retain", ids] =>
+    match stepM st (.retain (parseIds ids)) with
+    | some st' => (st', "ok")
+    | none => (st, "refused")
+  | ["reopen", id, _] =>
+    let i := natOr id
+    if !retainedDone st i then (st, "refused") else
+    let rots := parseRots hint
+    match Ckpt.run st.s [.crash, .open i rots] with
+    | some s' =>
+      let n := s'.db.mems.length - 1
+      ({ st with s := s', spec := specOf st i, flushQ := n, compactQ := 0 },
+       "opened n=" ++ toString n ++ " rots=" ++ showIds rots)
+    | none => ({ st with bad := true }, "failed")
+  | ["peek", id] =>
+    let i := natOr id
+    if !retainedDone st i then (st, "refused") else
+    match Ckpt.step st.s (.open i []) with
+    | some r => (st, withSpec (showScan (scan r.db [])) (showScan (specScan (specOf st i) [])))
+    | none => (st, "failed")
+  | ["intact"] => (st, "ok")
   | _ => (st, "bad-op")
 
 def handle (lines : Array String) (i : Nat) (out : Array String) : Nat × Array String :=
-  runLines step () lines i out
+  runLines step {} lines i out
 
 end Driver.C08
